@@ -194,3 +194,46 @@ def _nc_fields(res):
 
 
 register_cursor("mdtraj/formats/netcdf.py", "NetCDFTrajectoryFile", _nc_factory, _nc_fields, "_frame_index", "cursor:nc")
+
+
+# ---------------------------------------------------------------------------------------------
+# DCD: dcd_rewind (C, dcdplugin.c) is what every backward seek of DCDTrajectoryFile goes through.
+# Rep of the C handle: nsets = number of frames in the file (derived from the file size by open_dcd_read),
+# setsread = position.  Rewinding must put the position at 0 and leave nsets (what len() reports) alone.
+from mdvc.cinterp import AddrOf, StructObj  # noqa: E402
+
+
+@contract("C18", "mdtraj/formats/dcd/src/dcdplugin.c", "dcd_rewind", lang="c", cases=["header-ok", "header-error"], replay="cursor:dcd",
+          assumed=["read_dcdheader(fd, &natoms, &nsets, ...) parses the header and stores the HEADER's values through its out-pointers (the header's NSET "
+                   "need not equal the number of frames in the file); fio_fseek/fio_fclose/free by their libc meaning"])
+def dcd_rewind(ctx, case):
+    c = ctx.load_c("mdtraj/formats/dcd/src/dcdplugin.c", ["dcd_rewind"], include=("mdtraj/formats/dcd/include", "mdtraj/formats/dcd/src"))
+    N, pos, A = ctx.int("nsets"), ctx.int("setsread"), ctx.int("natoms")
+    ctx.assume(N >= 0, pos >= 0, pos <= N, A >= 1)
+    h = StructObj("dcdhandle", fd="fd", natoms=A, nsets=N, setsread=pos, istart=ctx.int("istart"), nsavc=ctx.int("nsavc"),
+                  delta=ctx.real("delta"), nfixed=ctx.int("nfixed"), freeind="freeind", fixedcoords="fixedcoords",
+                  reverse=ctx.int("reverse"), charmm=ctx.int("charmm"))
+    events = []
+    header_nset = ctx.int("header_NSET")  # whatever the header says: unrelated to N
+
+    def read_dcdheader(interp, args):
+        events.append("read_dcdheader")
+        fd, natoms, nsets, istart, nsavc, delta, nfixed, freeind, fixedcoords, reverse, charmm = args
+        for ref, val in ((natoms, A), (nsets, header_nset), (istart, ctx.int("h_istart")), (nsavc, ctx.int("h_nsavc")),
+                         (delta, ctx.real("h_delta")), (nfixed, ctx.int("h_nfixed")), (reverse, ctx.int("h_reverse")), (charmm, ctx.int("h_charmm"))):
+            ref.write(0, val) if isinstance(ref, AddrOf) else ref.region.write(ref.off, val)
+        return 0 if case == "header-ok" else -1
+
+    c.call_models["read_dcdheader"] = read_dcdheader
+    c.call_models["fio_fseek"] = lambda i, a: events.append(("seek", a[1], a[2])) or 0
+    c.call_models["fio_fclose"] = lambda i, a: events.append("close") or 0
+    c.call_models["free"] = lambda i, a: events.append("free") or None
+    out = ctx.ccall("dcd_rewind", h)
+    ctx.ensure("returns-normally", out.exc is None)
+    if case == "header-ok":
+        ctx.ensure("returns-0", out.value == 0)
+        ctx.ensure("position-reset-to-0", core.term(h.fields["setsread"]) == 0)
+        ctx.ensure("frame-count-of-the-handle-unchanged(len)", core.term(h.fields["nsets"]) == core.term(N))
+        ctx.ensure("file-repositioned-to-the-start-before-the-header-is-parsed", bool(events) and events[0] == ("seek", 0, 0) and "read_dcdheader" in events)
+    else:
+        ctx.ensure("error-is-reported", out.value == -1)
